@@ -258,17 +258,19 @@ def checkStrings (o : Opts) (pat : PatFn) (actual0 expected0 : List Line) : Resu
     expected side is a file (`expected_path` given): the raw actual (only when the
     actual was a string) and the post-processed pair (only with a reconstruction).
     Contents are what `write_file` writes, without the "Compare with" header that
-    precedes the post-processed text; `guideNl` = the reference file ends in a newline. -/
+    precedes the post-processed text; `guideNl` = the reference file ends in a newline;
+    `rawText` = the actual content as it was given (check_strings' `raw_actual`: the string, or the
+    given lines joined by newlines). -/
 structure Plan where
   rawActual : Option Line
   diffActual : Option Line
   diffExpected : Option Line
 deriving Repr, DecidableEq
 
-def plan (o : Opts) (r : Result) (guideNl : Bool) : Plan :=
+def plan (o : Opts) (r : Result) (guideNl : Bool) (rawText : Line) : Plan :=
   if r.failures == 0 then { rawActual := none, diffActual := none, diffExpected := none }
   else
-    let raw := if o.createTemporaries && !o.actualPath then some (joinNl r.actualAfter) else none
+    let raw := if o.createTemporaries && !o.actualPath then some rawText else none
     let nl : Line := if guideNl then ['\n'] else []
     match r.reconstruction, o.createTemporaries with
     | some (ra, re), true =>
